@@ -53,15 +53,21 @@ JOIN_TIMEOUT = 0.05
 
 WRAPPERS = ["mini_local", "mini_msa", "clustalo", "muscle3", "muscle5", "mafft"]
 TOOLS_FOR = {
-    "mini_local": ["OK", "NONZERO", "HANG", "MISSING"],
-    "mini_msa": ["OK", "REORDER", "NONZERO", "GARBAGE", "EMPTY", "HANG", "MISSING"],
-    "clustalo": ["OK", "REORDER", "NONZERO", "GARBAGE", "EMPTY", "HANG", "MISSING"],
+    "mini_local": ["OK", "NONZERO", "KILLED", "HANG", "MISSING"],
+    "mini_msa": ["OK", "REORDER", "NONZERO", "KILLED", "GARBAGE", "EMPTY", "HANG", "MISSING"],
+    "clustalo": ["OK", "REORDER", "NONZERO", "KILLED", "GARBAGE", "EMPTY", "HANG", "MISSING"],
     # the Muscle wrappers run `<bin> -version` in the constructor: a missing binary never yields an object
-    "muscle3": ["OK", "REORDER", "NONZERO", "GARBAGE", "EMPTY", "HANG"],
-    "muscle5": ["OK", "REORDER", "NONZERO", "GARBAGE", "EMPTY", "HANG"],
-    "mafft": ["OK", "REORDER", "NONZERO", "GARBAGE", "EMPTY", "HANG", "MISSING"],
+    "muscle3": ["OK", "REORDER", "NONZERO", "KILLED", "GARBAGE", "EMPTY", "HANG"],
+    "muscle5": ["OK", "REORDER", "NONZERO", "KILLED", "GARBAGE", "EMPTY", "HANG"],
+    "mafft": ["OK", "REORDER", "NONZERO", "KILLED", "GARBAGE", "EMPTY", "HANG", "MISSING"],
 }
 VERSION = {"muscle3": "MUSCLE v3.8.31 by Robert C. Edgar", "muscle5": "muscle 5.1.linux64 []"}
+
+
+def model_tool(tool):
+    """KILLED (the program writes its complete, parseable output and is then killed by a signal: negative
+    return code) is a run that does not end well - in the life-cycle model it is the NONZERO behaviour"""
+    return "NONZERO" if tool == "KILLED" else tool
 
 
 def depth_for(wrapper, tier):
@@ -198,7 +204,7 @@ def core_paths(tool, depth):
     (an operation is enabled when every model state the prefix may have reached
     has a transition for it)."""
     g = graph()
-    init = [json.dumps(k) for k in g["inits"] if k[1] == tool]
+    init = [json.dumps(k) for k in g["inits"] if k[1] == model_tool(tool)]
     out = []
 
     def rec(cur, path):
@@ -458,7 +464,7 @@ class Run:
             a.get_alignment_order()
         elif p == "get_exit_code":
             v = a.get_exit_code()
-            want = 3 if self.tool == "NONZERO" else 0
+            want = {"NONZERO": 3, "KILLED": -9}.get(self.tool, 0)
             if v != want:
                 return "WrongValue:exit_code=%r" % v
         elif p == "get_stdout":
@@ -586,7 +592,7 @@ def run_path(ctx, wrapper, tool, ops, strings=("ab", "a"), seqtype="protein", ch
     case = {"kind": "path", "wrapper": wrapper, "tool": tool, "ops": list(ops), "strings": list(strings),
             "seqtype": seqtype, "check_results": check_results}
     g = graph()
-    cur = {json.dumps(k) for k in g["inits"] if k[1] == tool}
+    cur = {json.dumps(k) for k in g["inits"] if k[1] == model_tool(tool)}
     run = None
     try:
         try:
